@@ -391,7 +391,7 @@ type c12Attack struct {
 }
 
 var c12Attacks = func() []string {
-	as := []string{"smp1-unit-elements-then-forged-smp3", "smp2-unit-elements-then-forged-smp4", "smp2-pb1-qb0", "smp1-g2a-0", "smp1-g2a-p-1"}
+	as := []string{"smp1-unit-elements-then-forged-smp3", "smp2-unit-elements-then-forged-smp4", "smp2-pb1-qb0", "smp1-g2a-0", "smp1-g2a-p-1", "smp2-g2b-0-then-smp4-rb-0", "smp2-g2b-p-then-smp4-rb-p"}
 	// Pb, Qb of SMP2 (Pa, Qa, Ra of SMP3) taken from {1, 0, p, 2p} — every representative of the residues 0 and 1 that fits
 	// the wire format differently — with the proofs recomputed over exactly these values
 	vals := []string{"0", "p", "2p", "1"}
@@ -605,6 +605,32 @@ func c12RunAttack(at c12Attack, seed int64) (fs []verifFinding, outcome string) 
 		d7 := subMod(r7, mul(b, cr), q)
 		sendD(c12MkTLV(tlvTypeSMP3, nil, []*big.Int{pa, qa, cp, d5, d6, ra, cr, d7}))
 		return fs, "degenerate SMP3: " + strings.Join(events, ",")
+	}
+	if strings.HasPrefix(at.Attack, "smp2-g2b-") {
+		// the victim initiates; the attacker answers with g2b = g3b ≡ 0 (so that g2 = g3 = 0 and the victim's own Pa, Qa
+		// are 0 whatever the secret is), Pb = Qb = 1, and finishes with Rb ≡ 0: every proof hash is H(i, 0[, 0])
+		z := big.NewInt(0)
+		if strings.Contains(at.Attack, "-p-") {
+			z = new(big.Int).Set(p)
+		}
+		s := V.StartSMP("", []byte("the real secret"))
+		if len(victimTLVs(s)) == 0 {
+			return fs, "victim did not start"
+		}
+		zero := big.NewInt(0)
+		five := big.NewInt(5)
+		r2m := send(c12MkTLV(tlvTypeSMP2, nil, []*big.Int{z, c12Hash(v, 3, zero), five, z, c12Hash(v, 4, zero), five, one, one, c12Hash(v, 5, zero, zero), five, five}))
+		got3 := false
+		for _, t3 := range victimTLVs(r2m) {
+			if t3.tlvType == tlvTypeSMP3 {
+				got3 = true
+			}
+		}
+		if !got3 {
+			return fs, "rejected at SMP2: " + strings.Join(events, ",")
+		}
+		send(c12MkTLV(tlvTypeSMP4, nil, []*big.Int{z, c12Hash(v, 8, zero, zero), five}))
+		return fs, "accepted SMP2 with zero generators: " + strings.Join(events, ",")
 	}
 	switch at.Attack {
 	case "smp1-unit-elements-then-forged-smp3", "smp1-g2a-0", "smp1-g2a-p-1":
